@@ -55,6 +55,7 @@ import (
 	"strings"
 	"sync"
 	"sync/atomic"
+	"syscall"
 	"time"
 
 	"harness/internal/lp"
@@ -63,6 +64,7 @@ import (
 	"github.com/lesismal/nbio"
 	"github.com/lesismal/nbio/logging"
 	"github.com/lesismal/nbio/nbhttp"
+	"github.com/lesismal/nbio/vsys"
 )
 
 // ---------------------------------------------------------------- specs
@@ -1644,13 +1646,14 @@ func (s *server) runStd(h *hist) {
 // ---------------------------------------------------------------- nbhttp clients
 
 type cbRec struct {
-	n    int32
-	st   int
-	hdr  http.Header
-	body []byte
-	err  error
-	mu   sync.Mutex
-	late []string // what later invocations (there must be none) were handed
+	local string // local address of the connection the callback was handed (key of the TLS record tracker)
+	n     int32
+	st    int
+	hdr   http.Header
+	body  []byte
+	err   error
+	mu    sync.Mutex
+	late  []string // what later invocations (there must be none) were handed
 }
 
 // cbFunc: the callback of one request.  The first invocation is the result; every further one is recorded.
@@ -1670,6 +1673,7 @@ func cbFuncP(rec *cbRec, done *int32, progress chan struct{}, panics bool) func(
 		}()
 		if atomic.AddInt32(&rec.n, 1) == 1 {
 			rec.err = err
+			rec.local = localOf(conn)
 			if err == nil && res != nil {
 				rec.st = res.StatusCode
 				rec.hdr = res.Header.Clone()
@@ -1843,6 +1847,11 @@ func (h *hist) finishCallbacksAt(recs []*cbRec, ordered bool, from int) {
 				class := ""
 				if persist, _ := rfcPersists(r); !persist && h.cliEpoll == "lt" && burst+r.sz > ltBurstCap {
 					class = " class=lt-burst-close"
+				}
+				// the TLS dependency dropped the plaintext in front of a close_notify whose record arrived in two reads
+				// (observed on this very connection by the record tracker, not inferred)
+				if tlsAlertSplit(rec.local) {
+					class = " class=tls-alert-split"
 				}
 				// reported only if it happens again when the case is re-run: rare transport-level races (e.g. a stale epoll
 				// event of a closed connection hitting the connection that reuses its descriptor number) also end an
@@ -2109,6 +2118,142 @@ closeit:
 	sub.finishCallbacksFrom(recs, h.failAt+1)
 	h.fails = append(h.fails, sub.fails...)
 	h.got = sub.got
+}
+
+// ---------------------------------------------------------------- TLS record tracker (client side reads)
+//
+// The TLS dependency (llib v1.2.4, std/crypto/tls Conn.AppendAndRead / Read) peeks at the record behind the last
+// application-data record: if it is an alert it is consumed at once so that (n, EOF) can be returned.  When only a
+// PART of that alert record has arrived the non-blocking branch returns (0, nil) — although the n plaintext bytes were
+// already taken out of the input buffer and copied to the caller: up to 16 KiB of plaintext vanish, and the nbhttp
+// client reports EOF for a response that was sent completely.  The trigger is a read(2) that ends inside the 23-byte
+// alert record (the ciphertext in front of it fills the read buffer to within 22 bytes).  That is a defect outside
+// nbio with no repair inside nbio (TLSDataHandler cannot know n), recorded as known finding
+// c10-tls-alert-split-drops-tail.  To tag exactly these events — and no other loss on a TLS connection — the
+// executor follows the record framing (the 5-byte headers are plaintext) of every stream nbio reads from a real
+// descriptor and remembers, per connection (local address), whether a read ended inside an alert record.
+
+type tlsTrack struct {
+	local string
+	hdr   [5]byte
+	hn    int  // header bytes collected of the current record
+	rem   int  // body bytes of the current record still to come
+	typ   byte // type of the record whose body is being read
+	dead  bool // not a TLS stream / framing lost
+	split bool // a read ended inside an alert record
+}
+
+var (
+	tlsMu      sync.Mutex
+	tlsByFd    = map[int]*tlsTrack{}
+	tlsByLocal = map[string]*tlsTrack{}
+	tlsWatch   int32 // 1 while a TLS cell runs
+)
+
+func localOf(c net.Conn) (s string) {
+	defer func() { _ = recover() }()
+	if c == nil {
+		return ""
+	}
+	if a := c.LocalAddr(); a != nil {
+		return a.String()
+	}
+	return ""
+}
+
+func fdLocal(fd int) string {
+	sa, err := syscall.Getsockname(fd)
+	if err != nil {
+		return ""
+	}
+	switch a := sa.(type) {
+	case *syscall.SockaddrInet4:
+		return net.JoinHostPort(net.IP(a.Addr[:]).String(), strconv.Itoa(a.Port))
+	case *syscall.SockaddrInet6:
+		return net.JoinHostPort(net.IP(a.Addr[:]).String(), strconv.Itoa(a.Port))
+	}
+	return ""
+}
+
+func tlsOnRead(fd int, b []byte, n int, err error) {
+	if atomic.LoadInt32(&tlsWatch) == 0 || n <= 0 {
+		return
+	}
+	tlsMu.Lock()
+	defer tlsMu.Unlock()
+	t := tlsByFd[fd]
+	if t == nil {
+		t = &tlsTrack{local: fdLocal(fd)}
+		tlsByFd[fd] = t
+		if t.local != "" {
+			tlsByLocal[t.local] = t
+		}
+		// nbio's first read of a stream is at a record boundary: the ClientHello on the server side, the first record
+		// after the handshake on the client side (ClientConn.Do shakes hands on the blocking net.Conn before it hands the
+		// descriptor to nbio, and the server sends nothing more until it gets a request); anything else is not TLS
+		if b[0] < 20 || b[0] > 23 {
+			t.dead = true
+		}
+	}
+	if t.dead {
+		return
+	}
+	for i := 0; i < n; {
+		if t.rem == 0 {
+			k := copy(t.hdr[t.hn:], b[i:n])
+			t.hn += k
+			i += k
+			if t.hn == 5 {
+				t.typ = t.hdr[0]
+				t.rem = int(t.hdr[3])<<8 | int(t.hdr[4])
+				t.hn = 0
+				if t.typ < 20 || t.typ > 23 || t.hdr[1] != 3 || t.rem > 16384+2048 {
+					t.dead = true
+					return
+				}
+			}
+			continue
+		}
+		k := n - i
+		if k > t.rem {
+			k = t.rem
+		}
+		t.rem -= k
+		i += k
+	}
+	// where did this read end?
+	if (t.hn > 0 && t.hdr[0] == 21) || (t.rem > 0 && t.typ == 21) {
+		t.split = true
+	}
+}
+
+func tlsOnClose(fd int) {
+	tlsMu.Lock()
+	delete(tlsByFd, fd)
+	tlsMu.Unlock()
+}
+
+// tlsAlertSplit: did a read of the connection with this local address end inside an alert record?
+func tlsAlertSplit(local string) bool {
+	if local == "" {
+		return false
+	}
+	tlsMu.Lock()
+	defer tlsMu.Unlock()
+	t := tlsByLocal[local]
+	return t != nil && !t.dead && t.split
+}
+
+func tlsTrackReset(on bool) {
+	tlsMu.Lock()
+	tlsByFd = map[int]*tlsTrack{}
+	tlsByLocal = map[string]*tlsTrack{}
+	tlsMu.Unlock()
+	v := int32(0)
+	if on {
+		v = 1
+	}
+	atomic.StoreInt32(&tlsWatch, v)
 }
 
 // ---------------------------------------------------------------- executor
@@ -2383,6 +2528,7 @@ func (c *caseT) runOnce() error {
 	if err != nil {
 		return err
 	}
+	tlsTrackReset(c.cell.tls)
 	type run struct {
 		h, clone *hist
 		done     chan struct{}
@@ -2915,6 +3061,8 @@ func (quietLogger) Error(f string, v ...interface{}) {
 
 func exec(e *lp.Exec) {
 	logging.SetLogger(quietLogger{})
+	vsys.RealReadHook = tlsOnRead
+	vsys.RealCloseHook = tlsOnClose
 	defer stopServers()
 	var lines []string
 	ncases := 0
